@@ -56,7 +56,7 @@ func productLeaves(o genOpts, withSafeKinds bool) []*D {
 		out = append(out, &D{K: k, S: QS(rich)})
 	}
 	for _, k := range panicKinds {
-		out = append(out, &D{K: k, S: QS(rich), N: 0}, &D{K: k, S: QS(rich), N: 4}, &D{K: k, S: QS(rich), N: 6}, &D{K: k, S: QS(rich), N: 7}, &D{K: k, S: QS(rich), N: 8})
+		out = append(out, &D{K: k, S: QS(rich), N: 0}, &D{K: k, S: QS(rich), N: 4}, &D{K: k, S: QS(rich), N: 6}, &D{K: k, S: QS(rich), N: 7}, &D{K: k, S: QS(rich), N: 8}, &D{K: k, S: QS(rich), N: 9})
 	}
 	if withSafeKinds {
 		for _, k := range safeKinds {
